@@ -438,7 +438,7 @@ def reduce_anyall(interp, v, axis, which):
         for r in getattr(interp, "ghost_rows", []):  # rows the harness declared worth instantiating at
             instantiate(interp.ctx, r)
     out = V(b)
-    out.meta = (which, dict(which=which, instantiate=instantiate, witness=w, root=root, b=b))
+    out.meta = (which, dict(which=which, instantiate=instantiate, witness=w, root=root, b=b, body=body, hit=hit))
     interp.ctx.__dict__.setdefault("_anyall", []).append(out.meta[1])
     return out
 
